@@ -40,10 +40,39 @@ def mutate(path, data):
     engine.dispose()
 
 
+def main_monolite(doc, dst):
+    """Inline-backed monolite feeds: a connection is a feed instance over its own rows of table B; `mutate` replaces the
+    instance by one over new rows (a re-configured feed)."""
+    from forml.provider.feed import monolite
+
+    tabs = dslgen.tables()
+    content = {int(k): v for k, v in doc.get('content', {}).items()}
+    feeds, out = {}, []
+    for op in doc['ops']:
+        if op['op'] == 'mutate':
+            content[op['conn']] = op['data']['B']
+            feeds.pop(op['conn'], None)
+            out.append({'done': True})
+            continue
+        try:
+            statement = dslgen.build_source(doc['statements'][op['stmt']])
+            if op['conn'] not in feeds:
+                rows = [tuple(r[c] for c, _ in dslgen.CATALOG['B']) for r in content[op['conn']]]
+                feeds[op['conn']] = monolite.Feed(inline={tabs['B']: rows})
+            feed = feeds[op['conn']]
+            producer = feed.producer(feed.sources, feed.features, **feed._readerkw)  # pylint: disable=protected-access
+            out.append({'rows': [[canon(v) for v in r] for r in producer(statement).to_rows()]})
+        except Exception as err:  # pylint: disable=broad-except
+            out.append({'error': f'{type(err).__name__}: {str(err)[:300]}'})
+    open(dst, 'w').write(json.dumps({'results': out, 'content': content}, default=str))
+
+
 def main(src, dst):
     from forml.provider.feed import alchemy as feedmod
 
     doc = json.loads(open(src).read())
+    if doc.get('kind') == 'monolite':
+        return main_monolite(doc, dst)
     tabs = dslgen.tables()
     out = []
     feeds = {}
